@@ -1417,6 +1417,24 @@ var c10BodyStmts = []string{
 	"遍历【】：\n    令Z = 1",
 	"输出7",
 	"（显示：1）",
+	// faults of the three kinds a method has to pass on (syntax / semantic / I/O class errors
+	// of its body, not only exceptions and runtime errors)
+	"令Y = “{” % 【1】",
+	"输出“{#.1” % 【1】",
+	"令Y = （读取文件：“/无/此/目录/文件”）",
+	"令Y = （解析JSON：“{”）",
+}
+
+// programs whose calls never end: the outcome is a Zn error, not the end of the host process
+var c10Runaway = []string{
+	"如何深？\n    输出（深）\n输出（深）",
+	"如何深？\n    输入层\n    输出（深：层 + 1） + 1\n输出（深：0）",
+	"如何甲法？\n    输出（乙法）\n如何乙法？\n    输出（甲法）\n输出（甲法）",
+	"定义T：\n    其P = 1\n    如何深？\n        输出以其自身（深）\n输出以（新建T）（深）",
+	"定义T：\n    其P = 1\n如何新建T？\n    其P = （新建T）\n输出（新建T）",
+	"定义T：\n    其P = 1\n    何为G？\n        输出其G\n输出（新建T）之G",
+	"如何深？\n    输出（深）\n    拦截异常：\n        输出-1\n输出（深）",
+	"如何深？\n    输入表\n    输出（深：【表】）\n输出（深：【】）",
 }
 
 var c10BodyUses = []string{
@@ -1443,7 +1461,10 @@ func c10Sources(tier string, fn func(kind, src string)) {
 			}
 		}
 	}
-	f2 := "如何F2？\n    输入V\n    输出V\n"
+	for _, src := range c10Runaway {
+		fn("runaway", src)
+	}
+	f2 := "导入《@文件》\n导入《@JSON》\n如何F2？\n    输入V\n    输出V\n"
 	for _, body := range bodies {
 		kinds := []struct{ pre, call string }{
 			{"如何F？\n" + c10Indent(body, 1) + "\n", "（F）"},
@@ -1672,7 +1693,7 @@ func init() {
 			"guards seam: Validate{Exact,Least,All}Params / AssertElement / AssertPropertyElement over type-string patterns x value tuples. " +
 			"program seam: one-call programs (method, property read / write, function call, 新建, 抛出, index read / write, every binary operator spelling, 如果 / 每当 / 遍历) with every argument slot over the full pool, arity <= 2 (method calls in quick: two arguments only on receivers whose type owns the method, one argument on every receiver; thorough: every receiver, and arity 3 over the sub-pool), values through 输入, result bound to a name and returned (and returned directly for arity <= 1). " +
 			"varinput seam: every text 甲 = <rhs> with <= 3 units over 14 units joined by 5 separators, two assignments joined by ； / newline, 8 target forms. " +
-			"source seam: every callable (function, method, 何为 getter, constructor) whose body is 1..2 statements over 8 forms that may yield no value (nested definitions, declarations, loops and branches that never run, 输出, 显示) x 12 ways of consuming the call's result; every history of <= 3 (4 thorough) operations (re-copy, 写入 / 移除 / index write, 后增 / 左移 / 新增) through three names holding copies of one 3-key dictionary or one 3-item list, then 显示, format and rendering of all three (list histories also change the unbound result of 合并); every walk (以K、V遍历) of a 3-key dictionary / 3-item list whose body, at pass 1..3, applies one or two of 6 operations to the collection being walked (remove each key, insert, overwrite, replace / shift, append, prepend, element write, replace) while every pass uses the loop variables in one of 5 ways. " +
+			"source seam: 8 programs whose calls never end (the outcome is a Zn error, the worker survives); every callable (function, method, 何为 getter, constructor) whose body is 1..2 statements over 12 forms that may yield no value or fail (nested definitions, declarations, loops and branches that never run, 输出, 显示, a malformed template, a failing file read, a failing JSON parse) x 12 ways of consuming the call's result; every history of <= 3 (4 thorough) operations (re-copy, 写入 / 移除 / index write, 后增 / 左移 / 新增) through three names holding copies of one 3-key dictionary or one 3-item list, then 显示, format and rendering of all three (list histories also change the unbound result of 合并); every walk (以K、V遍历) of a 3-key dictionary / 3-item list whose body, at pass 1..3, applies one or two of 6 operations to the collection being walked (remove each key, insert, overwrite, replace / shift, append, prepend, element write, replace) while every pass uses the loop variables in one of 5 ways. " +
 			"Enumeration is an odometer over table indexes, so cases are distinct; a case is non-trivial when the member's own code was reached (outcome is a value, or an error other than member-not-found / name-not-defined).",
 		Assumptions: []string{
 			"a Zn error of any kind is an acceptable outcome; only a Go panic, a nil Element on success (also inside a returned collection, or bound to a name that then reads as undefined), a hang or a dead worker are violations",
